@@ -26,6 +26,10 @@ HasObs(r) == "obs" \in DOMAIN r
 SqlShape(r) == ~HasObs(r) \/
                /\ (r.obs.sql.out = "ok" => ~r.obs.sql.empty) /\ (r.obs.sql.out = "err" => r.obs.sql.empty)
                /\ (r.obs.sqlp.out = "err" => r.obs.sqlp.empty)
+               \* the same call made a second time (a memo or a pool must not change the result)
+               /\ (r.obs.sql2.out = "ok" => ~r.obs.sql2.empty) /\ (r.obs.sql2.out = "err" => r.obs.sql2.empty)
+               /\ (r.obs.sqlp2.out = "err" => r.obs.sqlp2.empty)
+               /\ r.obs.sql2.out = r.obs.sql.out /\ r.obs.sqlp2.out = r.obs.sqlp.out
                /\ (~Ok(r) => r.obs.sql.out = "err" /\ r.obs.sqlp.out = "err")
 C10(c) == (IF Shape(c.res) THEN <<>> ELSE <<Fail("C10", c, "Parse result shape", "none")>>)
        \o (IF Shape(c.resdf) THEN <<>> ELSE <<Fail("C10", c, "Parse result shape (default field)", "none")>>)
